@@ -174,7 +174,75 @@ LAYER_TEXT = {
     'filter': 'filter constant true',
     'filter2': 'filter ! constant false',
     'seq': 'identity | filter constant true | identity',
+    # line-oriented consumers whose RESULT depends on the division into lines of their model (K6)
+    'line2': 'filter line-num == 2',
+    'strip-nl': 'strip -trailing-new-lines',
 }
+
+
+# -- layers that CHANGE the number of new-lines of a line (K6): ('replace', PATTERN, PRESERVE-NEW-LINES, REPLACEMENT)
+# PATTERN is a literal string over {a, b, new-line} that contains a new-line as its last character or not at all;
+# REPLACEMENT is a string over {x, new-line}.
+
+def replace_layer(pat: str, preserve: bool, repl: str):
+    return ('replace', pat, preserve, repl)
+
+
+def _quoted(s: str) -> str:
+    """The string written as a single-quoted token in which a new-line is the escape \\n (processed by the regex
+    / by the replacement string, as documented for `replace`)."""
+    return "'" + s.replace('\n', '\\n') + "'"
+
+
+def replace_source_text(layer) -> str:
+    _, pat, preserve, repl = layer
+    return 'replace %s%s %s' % ('-preserve-new-lines ' if preserve else '', _quoted(pat), _quoted(repl))
+
+
+def _subst_literal(part: str, pat: str, repl: str) -> str:
+    """`part` with every (leftmost, non-overlapping) occurrence of the literal `pat` replaced by `repl`."""
+    out = ''
+    i = 0
+    n = len(pat)
+    while i < len(part):
+        if part[i:i + n] == pat:
+            out = out + repl
+            i += n
+        else:
+            out = out + part[i]
+            i += 1
+    return out
+
+
+def ref_replace(text: str, pat: str, preserve: bool, repl: str) -> str:
+    """The documentation of `replace`: "Replaces every string matching REGEX (on a single line) with STRING.  Every
+    line ends with \\n, except the last line, which may or may not [...].  If -preserve-new-lines is given, this \\n
+    is excluded from the replacement."  The result is a TEXT; nothing is said (or needed) about how it is divided."""
+    out = ''
+    for line in ref_lines(text):
+        if preserve and line[-1] == '\n':
+            out = out + _subst_literal(line[:-1], pat, repl) + '\n'
+        else:
+            out = out + _subst_literal(line, pat, repl)
+    return out
+
+
+def denoted_by_layer(layer, text: str) -> str:
+    """The text a layer makes of its model's text (independent statement of what the layer is documented to do)."""
+    if isinstance(layer, tuple):
+        return ref_replace(text, layer[1], layer[2], layer[3])
+    if layer == 'fdwriter':
+        # the text of program output is what reading the file it was written to gives
+        return ffs.universal_newlines(text)
+    if layer == 'line2':
+        lines = ref_lines(text)
+        return lines[1] if len(lines) >= 2 else ''
+    if layer == 'strip-nl':
+        n = len(text)
+        while n > 0 and text[n - 1] == '\n':
+            n -= 1
+        return text[:n]
+    return text
 
 
 def _layer(kind: str, model, tfs, m: int):
@@ -188,6 +256,8 @@ def _layer(kind: str, model, tfs, m: int):
         from exactly_lib.util.description_tree import renderers
         return tss.transformed_string_source_from_writer(
             _fd_writer, model, lambda: renderers.header_only('fd-copy'), m, None)
+    if isinstance(kind, tuple):
+        return _transformer(replace_source_text(kind), tfs, m).transform(model)
     return _transformer(LAYER_TEXT[kind], tfs, m).transform(model)
 
 
@@ -249,9 +319,7 @@ def build_source(spec, fs, tfs, parts, m: int, prefix: str = ''):
         src, text = _root(root, fs, tfs, parts[0], prefix + 'p0')
     for layer in spec[1:]:
         src = _layer(layer, src, tfs, m)
-        if layer == 'fdwriter':
-            # the text of program output is what reading the file it was written to gives
-            text = ffs.universal_newlines(text)
+        text = denoted_by_layer(layer, text)
     return src, text
 
 
@@ -259,7 +327,7 @@ def spec_has_cache(spec) -> bool:
     """Does the source contain a StringSourceWithCachedFrozen (=> a SpooledTextFile when frozen)?"""
     if isinstance(spec[0], tuple) or spec[0] in ('prog', 'prog-i'):
         return True
-    return any(layer in ('filter', 'filter2', 'seq', 'writer', 'fdwriter') for layer in spec[1:])
+    return any(layer in ('filter', 'filter2', 'seq', 'writer', 'fdwriter', 'line2') for layer in spec[1:])
 
 
 def spec_needs_fd(spec) -> bool:
@@ -668,6 +736,97 @@ def k4_wrappers(s: str, e: str, k: int, m: int) -> bool:
     return ob.post(ok)
 
 
+# ---------------------------------------------------------------------------------- K6
+# Transformers whose output lines are NOT in 1-1 correspondence with the lines of their model: `replace` whose
+# replacement string inserts new-lines (0, 1, 2, ... of them, with or without other characters before / between /
+# after) into the first / a middle / the last line, `replace` that deletes or doubles the new-lines themselves,
+# with / without -preserve-new-lines; alone, under a cache, and followed by consumers whose result depends on the
+# division into lines (`filter line-num == 2`, `strip -trailing-new-lines`, `filter constant true`, `num-lines`).
+# Oracle = the property's: every access route delivers the denoted text, and as_lines delivers exactly the lines
+# of that text (its maximal segments ending in new-line), before and after freezing, for every buffer size.
+
+REAL_K6 = (
+    'exactly_lib.impls.types.string_transformer.impl.replace.impl._ReplaceStringTransformer',
+    'exactly_lib.impls.types.string_transformer.impl.replace.impl._lines_iterator_from_replacements',
+    'exactly_lib.impls.types.string_transformer.impl.replace.impl._ReplacerApplierWoLineMatcherSelector',
+    'exactly_lib.impls.types.string_transformer.impl.replace.impl._StrReplacerIncludingNewLines',
+    'exactly_lib.impls.types.string_transformer.impl.replace.impl._StrReplacerExcludingNewLines',
+    'exactly_lib.impls.types.string_transformer.impl.replace.setup.ParserOfReplace',
+    'exactly_lib.impls.types.string_transformer.impl.strip_space._strip_trailing_new_lines',
+    'exactly_lib.impls.types.string_matcher.impl.num_lines._PropertyGetter',
+) + REAL_K2
+
+STUB_RE = ('none for the regular expression: re.Pattern.sub runs on the symbolic line through CrossHair\'s model of `re` '
+           '(concrete pattern, concrete replacement string)')
+
+
+def k6_replacement(n1: int, x: int, n2: int) -> str:
+    """n1 new-lines, x times the character x, n2 new-lines."""
+    return '\n' * n1 + 'x' * x + '\n' * n2
+
+
+def _pre_k6(s: str, m: int, n1: int, x: int, n2: int, k: int) -> bool:
+    c = ob.case()
+    if m < 1:
+        return False
+    if len(s) > c['maxlen'] or not in_alphabet(s, c['alphabet']):
+        return False
+    if not (0 <= n1 and 0 <= n2 and n1 + n2 <= c['nmax'] and 0 <= x <= c['xmax']):
+        return False
+    if x == 0 and n2 != 0:
+        return False  # the same replacement string as (n1 + n2, 0, 0)
+    if 'matcher' not in c and k != 0:
+        return False
+    return True
+
+
+def k6_spec(c, repl: str):
+    return (c['root'],) + tuple(c.get('before', ())) + (replace_layer(c['pat'], c['preserve'], repl),) + \
+        tuple(c.get('after', ()))
+
+
+def k6_reshape(s: str, m: int, n1: int, x: int, n2: int, k: int) -> bool:
+    """
+    pre: _pre_k6(s, m, n1, x, n2, k)
+    post: _
+    """
+    c = ob.case()
+    # the replacement string goes through the real parser as concrete source text
+    n1 = ob.concrete_int(n1, 0, c['nmax'])
+    x = ob.concrete_int(x, 0, c['xmax'])
+    n2 = ob.concrete_int(n2, 0, c['nmax'])
+    spec = k6_spec(c, k6_replacement(n1, x, n2))
+    fs = ffs.FakeFs()
+    tfs = ffs.FakeDirFileSpace(fs)
+    ffs.install(fs)
+    ok = True
+    if c['seq']:
+        src, text = build_source(spec, fs, tfs, (s,), m)
+        lines = ref_lines(text)
+        if c.get('oracle_bug'):
+            # seeded oracle error: "a transformed text has one line per line of its model"
+            lines = lines[:len(ref_lines(s))]
+        for acc in c['seq']:
+            if not _observe(src, acc, text, lines, None):
+                ok = False
+                break
+    if ok and 'matcher' in c:
+        from vsym import xly
+        xly.install_int_placeholders([k])
+        n = 0
+        for w in c['wrappers']:
+            text_w = K4_WRAPPERS[w]
+            text_w = text_w % ((K4_MATCHERS[c['matcher']],) * text_w.count('%s'))
+            n += 1
+            model, text = build_source(spec, fs, tfs, (s,), m, 'm%d-' % n)
+            want = len(ref_lines(text)) == k
+            got = _string_matcher(text_w, tfs, m, '').matches_w_trace(model).value
+            if got != want:
+                ok = False
+                break
+    return ob.post(ok)
+
+
 # ---------------------------------------------------------------------------------- long concrete texts
 # Length thresholds that are CONSTANTS of the code (the 2**16 BUFFER_SIZE of contents_of_existing_path, the
 # default memory buffer io.DEFAULT_BUFFER_SIZE = 8192, the 100 + 1 extra characters `equals` reads of a
@@ -814,7 +973,17 @@ def _k3_long_concrete(espec, aspec, apre: str, length: int, m: int, bug: bool) -
 def _spec_name(spec) -> str:
     root = spec[0]
     r = '+'.join(root[1:]) if isinstance(root, tuple) else root
-    return '|'.join((r,) + tuple(spec[1:]))
+    return '|'.join((r,) + tuple(_layer_name(layer) for layer in spec[1:]))
+
+
+def _layer_name(layer) -> str:
+    if isinstance(layer, tuple):
+        return 'replace%s(%s->%s)' % ('-p' if layer[2] else '', _vis(layer[1]), _vis(layer[3]))
+    return layer
+
+
+def _vis(s: str) -> str:
+    return s.replace('\n', 'N')
 
 
 def _alpha_name(alphabet: str) -> str:
